@@ -501,6 +501,7 @@ func init() {
 			ruleDeclWriter(c, "R2-decl-writer")
 			rulePreprocessorMode(c, "R3-preprocessor-mode")
 			ruleCollectorReset(c, "R4-collector-reset")
+			ruleForceEvalMasksAgree(c, "X8m-force-eval-masks-agree")
 			c.Floor("R1-collect-routing", 15)
 		}},
 		Technique: "AST/type-resolved custom analysis: routing table of a type switch against an expectation table, emission-order and loop-shape check of the writer, must-return-before and def-use checks on the mode entry points",
